@@ -354,7 +354,7 @@ def run(prog, ctx):
     for r in R.return_paths(gw)[0]:
         t = tmw.term(r.ast.value)
         for x in subterms(t):
-            if x[0] == "call" and x[1] == ("a", ("n", "np"), "prod") and dict(x[3]).get("axis") == ("c", "1"):
+            if x[0] == "call" and x[1] == ("a", ("n", "np"), "prod") and (dict(x[3]).get("axis") == ("c", "1") or (len(x[2]) == 2 and x[2][1] == ("c", "1"))):
                 okp = True
     ctx.check(okp, "C02.D3", R.key_of(gw, "product-over-dimensions"), gw.loc(),
               "a point's weight is the product of its per-dimension weights",
@@ -668,29 +668,53 @@ def _check_global_set_grid(ctx, sg):
             if tm.term(loop.iter) != ("call", ("n", "range"), (("a", ("n", sg.self_name), "dim"),), ()):
                 problems.append("the loop does not range over all dimensions")
             cn, wn = ca[0].args[0], wa[0].args[0]
-            # per branch: same boundary slice on the points and on the weights computed from the same points
-            env = tm.env
-            cdefs = [b for b in env.bindings.get(cn.id, []) if b.kind == "assign"] if isinstance(cn, ast.Name) else []
-            wdefs = [b for b in env.bindings.get(wn.id, []) if b.kind == "assign"] if isinstance(wn, ast.Name) else []
-            if len(cdefs) != len(wdefs) or not cdefs:
-                problems.append("coordinates and weights are defined on different branches")
-            for cb, wb in zip(sorted(cdefs, key=lambda b: b.stmt.lineno), sorted(wdefs, key=lambda b: b.stmt.lineno)):
-                ct, wt = tm.term(cb.value), tm.term(wb.value)
-                gp = ("s", ("n", sg.params[1]), ("n", d))
-                cs_ = ct[2] if ct[0] == "s" and ct[1] == gp else (None if ct == gp else "?")
-                base = ct[1] if cs_ not in (None, "?") else ct
-                ws_ = wt[2] if wt[0] == "s" and wt[1][0] == "call" else (None if wt[0] == "call" else "?")
-                wcall = wt[1] if ws_ not in (None, "?") else wt
-                same_block = getattr(cb.stmt, "_parent", None) is getattr(wb.stmt, "_parent", None)
-                if base != gp or cs_ == "?":
-                    problems.append("coordinates of dimension d are not grid_points[d] (line %d)" % cb.stmt.lineno)
-                if ws_ == "?" or wcall[0] != "call" or not wcall[2] or wcall[2][0] != gp:
-                    problems.append("weights of dimension d are not computed from grid_points[d] (line %d)" % wb.stmt.lineno)
-                if cs_ != ws_:
-                    problems.append("points are sliced with %s but weights with %s (line %d)" %
-                                    (show(cs_) if cs_ else None, show(ws_) if ws_ else None, wb.stmt.lineno))
-                if not same_block:
-                    problems.append("points and weights of a branch are not defined together")
+            # per path through the loop body (locals substituted along the path, so temporaries, re-bindings such as
+            # `coordsD = coordsD[1:-1]` and hoisted computations all look alike): the appended points are grid_points[d], the appended
+            # weights are computed from grid_points[d], and both carry the same boundary slice
+            def sink_of(call_):
+                def f(st):
+                    if isinstance(st, ast.Expr) and st.value is call_:
+                        return call_.args[0]
+                    return None
+                return f
+            # the two appends are matched through their clones' positions: re-find by structure in the copied block
+            def summaries(target_attr):
+                def f(st):
+                    if isinstance(st, ast.Expr) and isinstance(st.value, ast.Call) and isinstance(st.value.func, ast.Attribute) and st.value.func.attr == "append" \
+                            and R.self_attr(st.value.func.value, sg.self_name) == target_attr and st.value.args:
+                        return st.value.args[0]
+                    return None
+                return R.block_summaries(sg, loop.body, f)
+            cs, ws = summaries("coordinate_array"), summaries("weights")
+            gp = ("s", ("n", sg.params[1]), ("n", d))
+            if not cs or not ws:
+                problems.append("the loop body could not be summarised path by path (loops / try inside the dimension loop)")
+            else:
+                def split(t):
+                    """(base, slice or None)"""
+                    if t[0] == "s" and t[2][0] == "slice":
+                        return t[1], t[2]
+                    return t, None
+                by_facts_w = {}
+                for (f_, v_) in ws:
+                    by_facts_w.setdefault(frozenset(x for x in f_ if any(isinstance(y, tuple) and len(y) == 3 and y[0] == "a" and y[2] == "boundary" for y in subterms(x))), []).append(v_)
+                for (f_, v_) in cs:
+                    if v_ == ("<falls-off>",):
+                        continue
+                    key_f = frozenset(x for x in f_ if any(isinstance(y, tuple) and len(y) == 3 and y[0] == "a" and y[2] == "boundary" for y in subterms(x)))
+                    wv = [w_ for w_ in by_facts_w.get(key_f, []) if w_ != ("<falls-off>",)]
+                    cbase, cslice = split(v_)
+                    if cbase != gp:
+                        problems.append("coordinates of dimension d are not grid_points[d] on the path %s" % [show(x) for x in key_f])
+                    if not wv:
+                        problems.append("no weights are appended on the path %s" % [show(x) for x in key_f])
+                    for w_ in wv:
+                        wbase, wslice = split(w_)
+                        if not (wbase[0] == "call" and wbase[2] and wbase[2][0] == gp):
+                            problems.append("weights of dimension d are not computed from grid_points[d] on the path %s" % [show(x) for x in key_f])
+                        if cslice != wslice:
+                            problems.append("points are sliced with %s but weights with %s on the path %s" %
+                                            (show(cslice) if cslice else None, show(wslice) if wslice else None, [show(x) for x in key_f]))
     # sortedness assertion kept (used as an axiom by C09.D1)
     asserts = [n for n in walk_local(sg.node) if isinstance(n, ast.Assert) and R.enclosing_loops(n)]
     sorted_ok = False
